@@ -74,7 +74,7 @@ def gen_case(rng, max_ops, with_restore):
         i = rng.randrange(1, len(ops) - 1)
         j = rng.randrange(i + 1, len(ops))
         ops = ops[:i] + ["save"] + ops[i:j] + ["restore"] + ops[j:]
-    return {"sigma0": sigma0, "c0": c0, "ns": ns, "cs": cs, "ops": ops}
+    return {"sigma0": sigma0, "c0": c0, "ns": ns, "cs": cs, "ops": ops, "acct": rng.choice(["rdp", "prv"])}
 
 
 def spec_line(spec, nsteps):
@@ -93,12 +93,13 @@ class Real:
 
     def __init__(self, case):
         from opacus import GradSampleModule
-        from opacus.accountants import RDPAccountant
+        from opacus.accountants import PRVAccountant, RDPAccountant
         from opacus.optimizers import DPOptimizer
 
         self.case = case
         self.d = 3
-        self.acct = RDPAccountant()
+        # both run-length-encoding ledgers (PRV is PrivacyEngine's default); GDP refuses a changing sigma
+        self.acct = PRVAccountant() if case.get("acct") == "prv" else RDPAccountant()
         self.build(first=True)
 
     def build(self, first):
